@@ -24,9 +24,42 @@ type inst struct {
 	tree table.FibStrategy
 	ht   table.FibStrategy
 	ref  map[string]*refEntry
+	// reuse universes: every name handed to the NAME-TREE FIB is decoded from this buffer, which the
+	// caller re-uses: it is scribbled over as soon as the operation has returned. (The hash-table FIB
+	// keeps the slices it is given - on the unchanged tree too - and all its callers hand it private
+	// memory; it is driven with private memory here as well.)
+	reuse   bool
+	scratch []byte
+	off     int
+}
+
+// arg returns the name to hand to a table for URI s.
+func (in *inst) arg(s string) enc.Name {
+	if !in.reuse {
+		return nm(s)
+	}
+	if in.scratch == nil {
+		in.scratch = make([]byte, 1024)
+	}
+	b := nm(s).Bytes()
+	k := copy(in.scratch[in.off:], b)
+	n, err := enc.NameFromBytes(in.scratch[in.off : in.off+k])
+	if err != nil {
+		panic("HARNESS-BUG: " + err.Error())
+	}
+	in.off += k
+	return n
+}
+
+func (in *inst) scribble() {
+	for i := range in.scratch {
+		in.scratch[i] = 0xEE
+	}
+	in.off = 0
 }
 
 type universe struct {
+	reuse    bool // see inst.reuse
 	prefixes []string
 	lookups  []string
 	faces    []uint64
@@ -85,7 +118,7 @@ func newSys(u universe, m uint16) *sys {
 	s.u = u
 	add := func(name string, f func(in *inst)) {
 		s.ops = append(s.ops, explore.Op{Name: name})
-		s.do[name] = f
+		s.do[name] = func(in *inst) { f(in); in.scribble() }
 	}
 	ent := func(in *inst, p string) *refEntry {
 		e := in.ref[p]
@@ -106,7 +139,7 @@ func newSys(u universe, m uint16) *sys {
 			for _, c := range u.costs {
 				f, c := f, c
 				add(fmt.Sprintf("Ins(%s,f%d,c%d)", p, f, c), func(in *inst) {
-					in.tree.InsertNextHopEnc(nm(p), f, c)
+					in.tree.InsertNextHopEnc(in.arg(p), f, c)
 					in.ht.InsertNextHopEnc(nm(p), f, c)
 					ent(in, p).nh[f] = c
 				})
@@ -118,7 +151,7 @@ func newSys(u universe, m uint16) *sys {
 		for _, f := range u.faces {
 			f := f
 			add(fmt.Sprintf("Rem(%s,f%d)", p, f), func(in *inst) {
-				in.tree.RemoveNextHopEnc(nm(p), f)
+				in.tree.RemoveNextHopEnc(in.arg(p), f)
 				in.ht.RemoveNextHopEnc(nm(p), f)
 				if e := in.ref[p]; e != nil {
 					delete(e.nh, f)
@@ -130,7 +163,7 @@ func newSys(u universe, m uint16) *sys {
 	for _, p := range u.prefixes {
 		p := p
 		add(fmt.Sprintf("Clear(%s)", p), func(in *inst) {
-			in.tree.ClearNextHopsEnc(nm(p))
+			in.tree.ClearNextHopsEnc(in.arg(p))
 			in.ht.ClearNextHopsEnc(nm(p))
 			if e := in.ref[p]; e != nil {
 				e.nh = map[uint64]uint64{}
@@ -161,7 +194,7 @@ func newSys(u universe, m uint16) *sys {
 					}
 					return m
 				}
-				in.tree.ReplaceNextHopsEnc(nm(p), cp())
+				in.tree.ReplaceNextHopsEnc(in.arg(p), cp())
 				in.ht.ReplaceNextHopsEnc(nm(p), cp())
 				if len(set) == 0 {
 					if e := in.ref[p]; e != nil {
@@ -179,7 +212,7 @@ func newSys(u universe, m uint16) *sys {
 		for _, st := range u.strats {
 			st := st
 			add(fmt.Sprintf("SetS(%s,%s)", p, st[len("/localhost/nfd/strategy/"):]), func(in *inst) {
-				in.tree.SetStrategyEnc(nm(p), nm(st))
+				in.tree.SetStrategyEnc(in.arg(p), in.arg(st))
 				in.ht.SetStrategyEnc(nm(p), nm(st))
 				ent(in, p).strat = st
 			})
@@ -195,7 +228,7 @@ func newSys(u universe, m uint16) *sys {
 			continue
 		}
 		add(fmt.Sprintf("Unset(%s)", p), func(in *inst) {
-			in.tree.UnSetStrategyEnc(nm(p))
+			in.tree.UnSetStrategyEnc(in.arg(p))
 			in.ht.UnSetStrategyEnc(nm(p))
 			if e := in.ref[p]; e != nil {
 				e.strat = ""
@@ -207,7 +240,7 @@ func newSys(u universe, m uint16) *sys {
 }
 
 func (s *sys) New() any {
-	in := &inst{ref: map[string]*refEntry{"/": {nh: map[uint64]uint64{}, strat: brName}}}
+	in := &inst{ref: map[string]*refEntry{"/": {nh: map[uint64]uint64{}, strat: brName}}, reuse: s.u.reuse}
 	in.tree = table.VerifNewFibTree()
 	in.ht = table.VerifNewFibHT(s.m)
 	return in
@@ -365,6 +398,8 @@ var universes = map[string]universe{
 	// sibling prefixes whose components differ in TYPE only (equal value bytes): generic x vs 32=x (keyword),
 	// version 1 vs segment 1, at the first and at the second level
 	"typed": {prefixes: []string{"/a/x", "/a/32=x", "/a/v=1", "/a/seg=1", "/x", "/32=x"}, faces: []uint64{1, 2}, costs: []uint64{1}, strats: []string{mcName}},
+	// the caller of the name-tree FIB decodes every name (prefixes and strategy names) from one buffer it re-uses after each call
+	"reuse": {reuse: true, prefixes: []string{"/a", "/a/b", "/x/y", "/a/b/c"}, faces: []uint64{1, 2}, costs: []uint64{1}, strats: []string{brName, mcName}},
 	"small": {prefixes: []string{"/", "/a", "/a/b", "/a/b/c"}, faces: []uint64{1}, costs: []uint64{1, 2}, strats: []string{mcName}},
 	"full":  {prefixes: []string{"/", "/a", "/a/b", "/a/b/c", "/a/b/c/d", "/a/x", "/e"}, faces: []uint64{1, 2}, costs: []uint64{1, 2}, strats: []string{brName, mcName}},
 	"deep":  {prefixes: []string{"/", "/a", "/a/b", "/a/b/c", "/a/b/c/d", "/a/b/c/d/e", "/a/b/c/d/e/f", "/a/b/c/d/e/f/g", "/a/b/x", "/a/b/c/d/e/x"}, faces: []uint64{1}, costs: []uint64{1}, strats: []string{mcName}},
@@ -399,6 +434,7 @@ func main() {
 				if m <= 2 {
 					c = append(c, explore.Config{Name: fmt.Sprintf("ambig m=%d", m), MaxDepth: d, MaxDev: -1})
 					c = append(c, explore.Config{Name: fmt.Sprintf("typed m=%d", m), MaxDepth: d, MaxDev: -1})
+					c = append(c, explore.Config{Name: fmt.Sprintf("reuse m=%d", m), MaxDepth: d, MaxDev: -1})
 				}
 			}
 			ad := 3
@@ -419,6 +455,7 @@ func main() {
 		Rule: "BFS over histories of InsertNextHop/RemoveNextHop/ClearNextHops/SetStrategy/UnSetStrategy on the real tree FIB and the real hash-table FIB (m=1..6) side by side; after every transition every lookup name (each prefix, one and two unknown components below it) and both listings are compared with a reference map; states de-duplicated on reference map + private shape of both tables",
 		Assumptions: []string{
 			"equal canonical state (reference map + tree node dump + hash-table real/virtual table dump) implies equal futures",
+			"reuse configurations: the name-tree FIB owns what it keeps (a caller may re-use the memory of a prefix or strategy name once the call has returned), as it does on the unchanged tree; the hash-table FIB keeps the slices it is given and is driven with private memory",
 			"name universes are finite: small (4 nested prefixes, fixpoint), full (7 prefixes incl. siblings, 2 faces, 2 costs), deep (chain to depth 7 crossing every m), ambig (names whose components concatenate to the same bytes), typed (sibling components that differ in type only)",
 		},
 	})
